@@ -1,18 +1,27 @@
 From Coq Require Import ZArith NArith List Bool.
-From GoCoap Require Import Base.Cases Pool.Model Pool.Spec.
+From GoCoap Require Import Base.Cases Pool.Model Pool.Spec Pool.Bounded.
 Import ListNotations.
 Open Scope Z_scope.
 
-(* a scenario's complete lifecycle trace; maxpool = capacity of the pool used; o_pooled = number of messages
-   the pool reported to hold at the end *)
-Inductive case := Trace (maxpool : Z) (t : list lc).
+(* Trace: a scenario's complete lifecycle trace; maxpool = total capacity of the pools used.
+   PoolSeq: what a sequential script of acquires and releases on one pool of capacity maxpool observed
+   (was the released message put back? did the acquire hand out a recycled message?) *)
+Inductive case :=
+| Trace (maxpool : Z) (t : list lc)
+| PoolSeq (maxpool : Z) (ops : list sop)
+| Hung (t : list lc).   (* the scenario did not return (or panicked); t = what had been recorded by then *)
 
 (* the observed trace must be a run of the pool automaton: classes 1-5 are ownership violations (property),
-   6 means the implementation left the automaton (recycle without release, hand-out of a non-pooled object) *)
+   6 means the implementation left the automaton (recycle without release, hand-out of a non-pooled object);
+   a sequential script must be, step by step, what the counter model of Pool/Bounded.v predicts *)
 Definition agrees (c : case) : bool :=
-  match c with Trace mx t => negb (N.eqb (check t) 6) && (pooled_after t <=? mx) end.
+  match c with
+  | Trace mx t => negb (N.eqb (check t) 6) && (pooled_after t <=? mx)
+  | PoolSeq mx ops => seq_ok mx 0 0 ops
+  | Hung _ => false   (* the model has no hanging or panicking run *)
+  end.
 
-Definition pclass (c : case) : N := match c with Trace _ t => c12_class t end.
+Definition pclass (c : case) : N := match c with Trace _ t | Hung t => c12_class t | PoolSeq _ _ => 0%N end.
 
 Definition mismatches (cs : list case) : list N := bad_indices (fun c => negb (agrees c)) cs.
 Definition property_failures (cs : list case) : list (N * N) := classes pclass cs.
